@@ -303,7 +303,7 @@ pub fn run_c14(ctx: &mut Ctx, shard: usize, nshards: usize) {
     {
         let mut k = 0usize;
         for c in crate::mon::writers::relational_cfgs() {
-            for h in 0..8 {
+            for h in 0..crate::drive::ROUTES {
                 k += 1;
                 if k % nshards != shard || (ctx.scale < 0.5 && k % 101 != 0) {
                     continue;
@@ -866,8 +866,9 @@ pub fn check_c20(ctx: &mut Ctx, cfg: &Cfg) {
             return;
         }
     }
-    // the eight construction routes of `drive` (borrowed / owned variants x plain / PacketBuilder-wrapped x
-    // direct / probing with observers between the setters of the builder *and of its sub-builders*) are
+    // the sixteen construction routes of `drive` (borrowed / owned variants x plain / PacketBuilder-wrapped x
+    // direct / probing with observers between the setters of the builder *and of its sub-builders* x fresh /
+    // re-configured after a first complete write) are
     // further "histories" reaching the same final configuration
     {
         let route = |h: usize| -> (WOut, Option<Vec<u8>>) {
@@ -891,7 +892,7 @@ pub fn check_c20(ctx: &mut Ctx, cfg: &Cfg) {
         let first = route(0);
         if !matches!(first.0, WOut::Panic(_)) {
             let fb = first.1.clone().map(|b| canon_fir(cfg, b));
-            for h in 1..8 {
+            for h in 1..crate::drive::ROUTES {
                 let got = route(h);
                 let gb = got.1.clone().map(|b| canon_fir(cfg, b));
                 if got.0 != first.0 || gb != fb {
@@ -902,7 +903,7 @@ pub fn check_c20(ctx: &mut Ctx, cfg: &Cfg) {
                         if got.0 != first.0 { "route:size-or-error" } else { "route:bytes" },
                         || cfg_case("c20", cfg, how),
                         format!("plain borrowed route: {} {}", first.0.render(), fb.as_ref().map(|b| hex(&b[..b.len().min(80)])).unwrap_or_default()),
-                        format!("route owned={} wrapped={} probing={}: {} {}", how.owned, how.wrap, how.probe, got.0.render(), gb.as_ref().map(|b| hex(&b[..b.len().min(80)])).unwrap_or_default()),
+                        format!("route owned={} wrapped={} probing={} reconfigured={}: {} {}", how.owned, how.wrap, how.probe, how.reconf, got.0.render(), gb.as_ref().map(|b| hex(&b[..b.len().min(80)])).unwrap_or_default()),
                     );
                     return;
                 }
@@ -1430,7 +1431,7 @@ pub fn run_c19(ctx: &mut Ctx, shard: usize, nshards: usize) {
             if !has_foreign(&c) {
                 continue;
             }
-            for h in 0..8 {
+            for h in 0..crate::drive::ROUTES {
                 k += 1;
                 if k % nshards == shard && (!tiny || k % 7 == 0) {
                     check_c19_cfg(ctx, &c, crate::mon::writers::hows(h));
